@@ -36,6 +36,7 @@ static Outcome run(tape_t const& tape)
     start_runtime(c.cfg);
     Interp in(c.prog, c.cfg);
     G().diagnose = [&] { return in.diagnose(); };
+    G().stranded_after_samples = 100;
     Quiescence q;
     q.start();
     Outcome out;
@@ -64,6 +65,12 @@ static Outcome run(tape_t const& tape)
     if (G().rebinds.load() > 0) out.tags.push_back("saw:rebind");
     if (G().active_retry.load() > 0) out.tags.push_back("saw:active_retry");
     if (c.prog.nsubmitters > 0) out.tags.push_back("external_submitters");
+    if (c.prog.mass_event >= 0)
+    {
+        out.tags.push_back("has:mass_wait");
+        long long nw = static_cast<long long>(c.prog.events[static_cast<std::size_t>(c.prog.mass_event)].waiters.size());
+        if (nw > static_cast<long long>(c.cfg.max_thread_count) * c.cfg.workers) out.tags.push_back("has:mass_wait_above_queue_thread_limit");
+    }
     return out;
 }
 
